@@ -1,14 +1,577 @@
-// Package c09 is the correspondence area of property C09 (stub: the slice is not built yet).
+// Package c09 corresponds the field-level JSON codec of transcoding/json.go (JSONMarshaler.Marshal /
+// Unmarshal and the stream Encoder/Decoder) with the Lean model GB.C09, on schemas built at run time
+// (descriptorpb → protodesc.NewFiles → dynamicpb): every scalar kind as singular / proto3-optional /
+// oneof member / repeated / map value with every key kind, enums (with aliases), NullValue, wrappers and
+// other well-known message types. The implementation-side oracle is the real protojson on {"f": <value>}.
+//
+// Line protocol: see lean/GB/C09/Driver.lean.
 package c09
 
 import (
-	"math/rand"
+	"bytes"
+	"encoding/hex"
+	"encoding/json"
+	"errors"
+	"fmt"
+	"io"
+	"math"
+	"sort"
+	"strconv"
+	"strings"
+	"sync"
+	"unicode/utf8"
+
+	"github.com/renbou/grpcbridge/transcoding"
+	"google.golang.org/protobuf/encoding/protojson"
+	"google.golang.org/protobuf/proto"
+	"google.golang.org/protobuf/reflect/protoreflect"
+	"google.golang.org/protobuf/types/dynamicpb"
+	"verif/harness/common"
 )
 
 type Area struct{}
 
 func (Area) Name() string { return "c09" }
 
-func (Area) Exec(input string) string { return "UNIMPLEMENTED" }
+var (
+	schemaOnce sync.Once
+	theSchema  *schema
+)
 
-func (Area) Gen(r *rand.Rand, tier string, emit func(string)) {}
+func sch() *schema {
+	schemaOnce.Do(func() {
+		s, err := buildSchema()
+		if err != nil {
+			panic("c09: schema: " + err.Error())
+		}
+		theSchema = s
+	})
+	return theSchema
+}
+
+func marshaler(opts string) *transcoding.JSONMarshaler {
+	m := &transcoding.JSONMarshaler{}
+	if strings.Contains(opts, "d") { // the settings of transcoding.DefaultJSONMarshaler
+		m.MarshalOptions.EmitDefaultValues = true
+		m.UnmarshalOptions.DiscardUnknown = true
+	}
+	if strings.Contains(opts, "n") {
+		m.MarshalOptions.UseEnumNumbers = true
+	}
+	return m
+}
+
+// ---- JSON value tree as encoding/json tokenizes it -------------------------------------------------
+
+// firstValue returns the raw bytes of the first JSON value of a stream, the way json.Decoder.Decode scans it.
+func firstValue(dec *json.Decoder) (json.RawMessage, error) {
+	var raw json.RawMessage
+	err := dec.Decode(&raw)
+	return raw, err
+}
+
+type leafCollector struct{ leaves []string }
+
+// treeOf serialises a valid JSON value: tokens joined by ','.
+func treeOf(raw []byte, lc *leafCollector) string {
+	dec := json.NewDecoder(bytes.NewReader(raw))
+	dec.UseNumber()
+	var toks []string
+	var rec func() bool
+	rec = func() bool {
+		t, err := dec.Token()
+		if err != nil {
+			return false
+		}
+		switch v := t.(type) {
+		case nil:
+			toks = append(toks, "z")
+		case bool:
+			if v {
+				toks = append(toks, "t")
+			} else {
+				toks = append(toks, "f")
+			}
+		case json.Number:
+			toks = append(toks, "n"+hex.EncodeToString([]byte(v)))
+			lc.leaves = append(lc.leaves, string(v))
+		case string:
+			toks = append(toks, "s"+hex.EncodeToString([]byte(v)))
+			lc.leaves = append(lc.leaves, v)
+		case json.Delim:
+			switch v {
+			case '[':
+				toks = append(toks, "[")
+				for dec.More() {
+					if !rec() {
+						return false
+					}
+				}
+				if _, err := dec.Token(); err != nil {
+					return false
+				}
+				toks = append(toks, "]")
+			case '{':
+				toks = append(toks, "{")
+				for dec.More() {
+					kt, err := dec.Token()
+					if err != nil {
+						return false
+					}
+					ks, ok := kt.(string)
+					if !ok {
+						return false
+					}
+					toks = append(toks, "k"+hex.EncodeToString([]byte(ks)))
+					if !rec() {
+						return false
+					}
+				}
+				if _, err := dec.Token(); err != nil {
+					return false
+				}
+				toks = append(toks, "}")
+			default:
+				return false
+			}
+		}
+		return true
+	}
+	if !rec() {
+		return "!"
+	}
+	return strings.Join(toks, ",")
+}
+
+func showFloat(f float64, is32 bool) string {
+	switch {
+	case math.IsNaN(f):
+		return "nan"
+	case math.IsInf(f, 1):
+		return "pinf"
+	case math.IsInf(f, -1):
+		return "ninf"
+	}
+	if is32 {
+		return fmt.Sprintf("b%d", math.Float32bits(float32(f)))
+	}
+	return fmt.Sprintf("b%d", math.Float64bits(f))
+}
+
+// fpTable is strconv.ParseFloat on every leaf (the float environment the model is parametrised by).
+func fpTable(kind string, leaves []string) string {
+	if kind != "float" && kind != "double" {
+		return "fp:"
+	}
+	bits := 64
+	if kind == "float" {
+		bits = 32
+	}
+	seen := map[string]bool{}
+	var ents []string
+	for _, l := range leaves {
+		if seen[l] || len(ents) >= 64 {
+			continue
+		}
+		seen[l] = true
+		f, err := strconv.ParseFloat(l, bits)
+		r := "-"
+		if err == nil {
+			r = showFloat(f, bits == 32)
+		}
+		ents = append(ents, hex.EncodeToString([]byte(l))+"="+r)
+	}
+	return "fp:" + strings.Join(ents, ";")
+}
+
+// ---- values -----------------------------------------------------------------------------------------
+
+func showScalar(fd protoreflect.FieldDescriptor, v protoreflect.Value) string {
+	switch fd.Kind() {
+	case protoreflect.BoolKind:
+		if v.Bool() {
+			return "t"
+		}
+		return "f"
+	case protoreflect.Int32Kind, protoreflect.Sint32Kind, protoreflect.Sfixed32Kind,
+		protoreflect.Int64Kind, protoreflect.Sint64Kind, protoreflect.Sfixed64Kind:
+		return fmt.Sprintf("i%d", v.Int())
+	case protoreflect.Uint32Kind, protoreflect.Fixed32Kind, protoreflect.Uint64Kind, protoreflect.Fixed64Kind:
+		return fmt.Sprintf("i%d", v.Uint())
+	case protoreflect.FloatKind:
+		return showFloat(v.Float(), true)
+	case protoreflect.DoubleKind:
+		return showFloat(v.Float(), false)
+	case protoreflect.StringKind:
+		return "s" + hex.EncodeToString([]byte(v.String()))
+	case protoreflect.BytesKind:
+		return "y" + hex.EncodeToString(v.Bytes())
+	case protoreflect.EnumKind:
+		return fmt.Sprintf("e%d", v.Enum())
+	}
+	return "?"
+}
+
+func showField(msg protoreflect.Message, fd protoreflect.FieldDescriptor) string {
+	switch {
+	case fd.IsList():
+		l := msg.Get(fd).List()
+		parts := make([]string, l.Len())
+		for i := range parts {
+			parts[i] = showScalar(fd, l.Get(i))
+		}
+		return "L" + strings.Join(parts, ",")
+	case fd.IsMap():
+		var parts []string
+		msg.Get(fd).Map().Range(func(k protoreflect.MapKey, v protoreflect.Value) bool {
+			parts = append(parts, showScalar(fd.MapKey(), k.Value())+"="+showScalar(fd.MapValue(), v))
+			return true
+		})
+		sort.Strings(parts)
+		return "M" + strings.Join(parts, ",")
+	}
+	return "S" + showScalar(fd, msg.Get(fd))
+}
+
+func hasFlag(card string, msg protoreflect.Message, fd protoreflect.FieldDescriptor) string {
+	if card != "opt" && card != "oneof" {
+		return "-"
+	}
+	if msg.Has(fd) {
+		return "1"
+	}
+	return "0"
+}
+
+func parseScalar(fd protoreflect.FieldDescriptor, s string) (protoreflect.Value, error) {
+	bad := fmt.Errorf("bad scalar %q for %v", s, fd.Kind())
+	if s == "" {
+		return protoreflect.Value{}, bad
+	}
+	num := func() (float64, bool) {
+		is32 := fd.Kind() == protoreflect.FloatKind
+		switch s {
+		case "nan":
+			return math.NaN(), true
+		case "pinf":
+			return math.Inf(1), true
+		case "ninf":
+			return math.Inf(-1), true
+		}
+		if s[0] != 'b' {
+			return 0, false
+		}
+		n, err := strconv.ParseUint(s[1:], 10, 64)
+		if err != nil {
+			return 0, false
+		}
+		if is32 {
+			return float64(math.Float32frombits(uint32(n))), true
+		}
+		return math.Float64frombits(n), true
+	}
+	switch fd.Kind() {
+	case protoreflect.BoolKind:
+		return protoreflect.ValueOfBool(s == "t"), nil
+	case protoreflect.Int32Kind, protoreflect.Sint32Kind, protoreflect.Sfixed32Kind:
+		n, err := strconv.ParseInt(s[1:], 10, 32)
+		return protoreflect.ValueOfInt32(int32(n)), err
+	case protoreflect.Int64Kind, protoreflect.Sint64Kind, protoreflect.Sfixed64Kind:
+		n, err := strconv.ParseInt(s[1:], 10, 64)
+		return protoreflect.ValueOfInt64(n), err
+	case protoreflect.Uint32Kind, protoreflect.Fixed32Kind:
+		n, err := strconv.ParseUint(s[1:], 10, 32)
+		return protoreflect.ValueOfUint32(uint32(n)), err
+	case protoreflect.Uint64Kind, protoreflect.Fixed64Kind:
+		n, err := strconv.ParseUint(s[1:], 10, 64)
+		return protoreflect.ValueOfUint64(n), err
+	case protoreflect.FloatKind:
+		f, ok := num()
+		if !ok {
+			return protoreflect.Value{}, bad
+		}
+		return protoreflect.ValueOfFloat32(float32(f)), nil
+	case protoreflect.DoubleKind:
+		f, ok := num()
+		if !ok {
+			return protoreflect.Value{}, bad
+		}
+		return protoreflect.ValueOfFloat64(f), nil
+	case protoreflect.StringKind:
+		b, err := hex.DecodeString(s[1:])
+		return protoreflect.ValueOfString(string(b)), err
+	case protoreflect.BytesKind:
+		b, err := hex.DecodeString(s[1:])
+		return protoreflect.ValueOfBytes(b), err
+	case protoreflect.EnumKind:
+		n, err := strconv.ParseInt(s[1:], 10, 32)
+		return protoreflect.ValueOfEnum(protoreflect.EnumNumber(n)), err
+	}
+	return protoreflect.Value{}, bad
+}
+
+// setField stores the line-protocol field value into msg; returns the finite floats it contains.
+func setField(msg protoreflect.Message, fd protoreflect.FieldDescriptor, f string) error {
+	if f == "" {
+		return errors.New("empty field")
+	}
+	body := f[1:]
+	switch f[0] {
+	case 'S':
+		v, err := parseScalar(fd, body)
+		if err != nil {
+			return err
+		}
+		msg.Set(fd, v)
+	case 'L':
+		l := msg.Mutable(fd).List()
+		if body == "" {
+			return nil
+		}
+		for _, p := range strings.Split(body, ",") {
+			v, err := parseScalar(fd, p)
+			if err != nil {
+				return err
+			}
+			l.Append(v)
+		}
+	case 'M':
+		m := msg.Mutable(fd).Map()
+		if body == "" {
+			return nil
+		}
+		for _, p := range strings.Split(body, ",") {
+			kv := strings.SplitN(p, "=", 2)
+			if len(kv) != 2 {
+				return errors.New("bad map entry")
+			}
+			k, err := parseScalar(fd.MapKey(), kv[0])
+			if err != nil {
+				return err
+			}
+			v, err := parseScalar(fd.MapValue(), kv[1])
+			if err != nil {
+				return err
+			}
+			m.Set(k.MapKey(), v)
+		}
+	default:
+		return errors.New("bad field")
+	}
+	return nil
+}
+
+// ---- execution --------------------------------------------------------------------------------------
+
+func lookup(card, kind, key string) protoreflect.FieldDescriptor {
+	k := key
+	if card != "map" {
+		k = ""
+	}
+	return sch().md.Fields().ByName(protoreflect.Name(fieldName(card, kind, k)))
+}
+
+// observe runs fn and maps the outcome to ERR / PANIC / ok().
+func observe(fn func() error, ok func() string) (out string) {
+	defer func() {
+		if r := recover(); r != nil {
+			out = "PANIC"
+		}
+	}()
+	if err := fn(); err != nil {
+		return "ERR"
+	}
+	return ok()
+}
+
+func oracleDecode(opts, card string, fd protoreflect.FieldDescriptor, raw []byte, show func(protoreflect.Message) string) string {
+	if raw == nil {
+		return "ERR"
+	}
+	s := sch()
+	msg := dynamicpb.NewMessage(s.md)
+	name, _ := json.Marshal(fd.JSONName())
+	wrapped := append(append(append([]byte("{"), name...), ':'), raw...)
+	wrapped = append(wrapped, '}')
+	return observe(func() error {
+		return protojson.UnmarshalOptions{DiscardUnknown: strings.Contains(opts, "d"), Resolver: s.types}.Unmarshal(wrapped, msg)
+	}, func() string { return show(msg) })
+}
+
+// tokenizable: both tokenizers (encoding/json, protojson) read the text the same way — valid UTF-8
+// and no \uD8xx–\uDFxx escapes (encoding/json replaces lone surrogates, protojson rejects them).
+func tokenizable(text []byte) string {
+	if !utf8.Valid(text) {
+		return "u0"
+	}
+	l := bytes.ToLower(text)
+	if bytes.Contains(l, []byte(`\ud`)) {
+		return "u0"
+	}
+	return "u1"
+}
+
+func (Area) Exec(input string) string {
+	f := strings.Fields(input)
+	if len(f) != 6 {
+		return "BADOP"
+	}
+	op, opts, card, kind, key := f[0], f[1], f[2], f[3], f[4]
+	fd := lookup(card, kind, key)
+	if fd == nil {
+		return "BADFIELD"
+	}
+	s := sch()
+	m := marshaler(opts)
+	show := func(msg protoreflect.Message) string { return "OK:" + hasFlag(card, msg, fd) + ":" + showField(msg, fd) }
+	switch op {
+	case "dec":
+		text := common.MustUnHex(f[5])
+		raw, err := firstValue(json.NewDecoder(bytes.NewReader(text)))
+		lc := &leafCollector{}
+		tree := "!"
+		if err == nil {
+			tree = treeOf(raw, lc)
+		} else {
+			raw = nil
+		}
+		msg := dynamicpb.NewMessage(s.md)
+		impl := observe(func() error { return m.Unmarshal(s.types, text, msg, fd) }, func() string { return show(msg) })
+		oracle := oracleDecode(opts, card, fd, raw, show)
+		return strings.Join([]string{tokenizable(text), tree, fpTable(kind, lc.leaves), impl, oracle}, " ")
+	case "msg":
+		text := common.MustUnHex(f[5])
+		raw, err := firstValue(json.NewDecoder(bytes.NewReader(text)))
+		if err != nil {
+			raw = nil
+		}
+		showMsg := func(msg protoreflect.Message) string {
+			b, err := proto.MarshalOptions{Deterministic: true}.Marshal(msg.Interface())
+			if err != nil {
+				return "OK:unmarshalable"
+			}
+			return "OK:" + hex.EncodeToString(b)
+		}
+		msg := dynamicpb.NewMessage(s.md)
+		impl := observe(func() error { return m.Unmarshal(s.types, text, msg, fd) }, func() string { return showMsg(msg) })
+		return impl + " " + oracleDecode(opts, card, fd, raw, showMsg)
+	case "sdec":
+		text := common.MustUnHex(f[5])
+		// the trees of the successive values, by an independent decoder
+		var trees, results []string
+		lc := &leafCollector{}
+		td := json.NewDecoder(bytes.NewReader(text))
+		for len(trees) < 64 {
+			raw, err := firstValue(td)
+			if errors.Is(err, io.EOF) {
+				break
+			}
+			if err != nil {
+				trees = append(trees, "!")
+				break
+			}
+			trees = append(trees, treeOf(raw, lc))
+		}
+		out := observe(func() error {
+			dec := m.NewDecoder(s.types, bytes.NewReader(text))
+			for len(results) < 64 {
+				msg := dynamicpb.NewMessage(s.md)
+				err := dec.Decode(msg, fd)
+				if errors.Is(err, io.EOF) {
+					break
+				}
+				if err != nil {
+					results = append(results, "ERR")
+					break
+				}
+				results = append(results, show(msg))
+			}
+			return nil
+		}, func() string { return "" })
+		if out == "PANIC" {
+			results = append(results, "PANIC")
+		}
+		j := func(l []string) string {
+			if len(l) == 0 {
+				return "-"
+			}
+			return strings.Join(l, ";")
+		}
+		return strings.Join([]string{tokenizable(text), j(trees), fpTable(kind, lc.leaves), j(results)}, " ")
+	case "enc":
+		msg := dynamicpb.NewMessage(s.md)
+		if err := setField(msg, fd, f[5]); err != nil {
+			return "BADVALUE"
+		}
+		// both the one-shot Marshal and the stream Encoder (which must write exactly Marshal + '\n')
+		var text []byte
+		lc := &leafCollector{}
+		tree := observe(func() error {
+			var err error
+			text, err = m.Marshal(s.types, msg, fd)
+			if err != nil {
+				return err
+			}
+			var buf bytes.Buffer
+			if err := m.NewEncoder(s.types, &buf).Encode(msg, fd); err != nil {
+				return err
+			}
+			if !bytes.Equal(buf.Bytes(), append(append([]byte{}, text...), '\n')) {
+				return errors.New("stream encoder output differs from Marshal")
+			}
+			return nil
+		}, func() string {
+			raw, err := firstValue(json.NewDecoder(bytes.NewReader(text)))
+			if err != nil {
+				return "ERR"
+			}
+			return treeOf(raw, lc)
+		})
+		rt, cd := "-", "-"
+		if tree != "ERR" && tree != "PANIC" {
+			back := dynamicpb.NewMessage(s.md)
+			rt = observe(func() error { return m.Unmarshal(s.types, text, back, fd) }, func() string { return show(back) })
+		}
+		// what the canonical encoder (protojson) emits for the field
+		var canonRaw []byte
+		if full, err := (protojson.MarshalOptions{Resolver: s.types, EmitUnpopulated: true, UseEnumNumbers: strings.Contains(opts, "n")}).Marshal(msg.Interface()); err == nil {
+			var members map[string]json.RawMessage
+			if json.Unmarshal(full, &members) == nil {
+				canonRaw = members[fd.JSONName()]
+			}
+		}
+		if canonRaw != nil {
+			back := dynamicpb.NewMessage(s.md)
+			cd = observe(func() error { return m.Unmarshal(s.types, canonRaw, back, fd) }, func() string { return show(back) })
+			treeOf(canonRaw, lc)
+		}
+		// float environment: the formatter on every finite float of the value, the parser on every leaf
+		ff := "ff:"
+		if kind == "float" || kind == "double" {
+			var ents []string
+			seen := map[string]bool{}
+			for _, p := range strings.FieldsFunc(f[5][1:], func(r rune) bool { return r == ',' || r == '=' }) {
+				if len(p) > 1 && p[0] == 'b' && !seen[p] {
+					seen[p] = true
+					n, err := strconv.ParseUint(p[1:], 10, 64)
+					if err != nil {
+						continue
+					}
+					var t []byte
+					if kind == "float" {
+						if n > math.MaxUint32 {
+							continue
+						}
+						t, _ = json.Marshal(math.Float32frombits(uint32(n)))
+					} else {
+						t, _ = json.Marshal(math.Float64frombits(n))
+					}
+					ents = append(ents, p[1:]+"="+hex.EncodeToString(t))
+				}
+			}
+			ff += strings.Join(ents, ";")
+		}
+		return strings.Join([]string{tree, ff, fpTable(kind, lc.leaves), rt, cd}, " ")
+	}
+	return "BADOP"
+}
